@@ -34,7 +34,7 @@ def _helper_has(body, pred, depth, seen=None):
         for s in b.sites:
             if pred(b, s):
                 return True
-            if depth > 0:
+            if depth > 0 and not (s.callee or '').endswith('Future::poll'):
                 t = _local_target(b, s)
                 if t is not None and _helper_has(t, pred, depth - 1, seen):
                     return True
@@ -48,7 +48,7 @@ def deep_sites(body, pred, depth=1):
     for s in body.sites:
         if pred(body, s):
             out.append(s)
-        elif depth > 0:
+        elif depth > 0 and not (s.callee or '').endswith('Future::poll'):
             t = _local_target(body, s)
             if t is not None and t.name.startswith('rnacos::') and _helper_has(t, pred, depth - 1):
                 out.append(s)
@@ -153,6 +153,8 @@ def region(fb, body, depth=2):
             out.append(x)
             if d > 0:
                 for s in x.sites:
+                    if (s.callee or '').endswith('Future::poll'):
+                        continue
                     t = _local_target(x, s)
                     if t is not None and t.file == body.file and t.name.startswith('rnacos::') and not t.parent:
                         add(t, d - 1)
